@@ -142,6 +142,41 @@ def _from_current_exception(fn, aid, depth=0):
     return bool(_origin_calls(fn, aid, 'std::current_exception'))
 
 
+def _resolve_bool(f, nid, depth=0):
+    """(node, positive): the expression whose truth a condition tests, looking through `!` and through named locals that
+    are written exactly once (their initialiser); positive is False under an odd number of negations."""
+    n = f.sn(nid)
+    pos = True
+    while n is not None and depth < 6:
+        depth += 1
+        if n.get('k') == 'unop' and n.get('op') == '!':
+            pos = not pos
+            n = f.sn(n['sub'])
+            continue
+        if n.get('k') == 'var' and n.get('vk') in ('local', None):
+            init = None
+            writes = 0
+            for m in f.all_nodes():
+                if m.get('k') == 'decl':
+                    for v in m['vars']:
+                        if v['d'] == n.get('d'):
+                            writes += 1
+                            init = v.get('init') if isinstance(v.get('init'), int) else None
+                elif m.get('k') == 'assign':
+                    l = f.sn(m['lhs'])
+                    if l is not None and l.get('k') == 'var' and l.get('d') == n.get('d'):
+                        writes += 2
+                elif m.get('k') == 'unop' and m.get('op') in ('++', '--'):
+                    l = f.sn(m['sub'])
+                    if l is not None and l.get('k') == 'var' and l.get('d') == n.get('d'):
+                        writes += 2
+            if writes == 1 and init is not None:
+                n = f.sn(init)
+                continue
+        break
+    return n, pos
+
+
 def _must_elems(fb, f, is_target, depth=3, memo=None):
     """elements of f that are calls satisfying is_target(fn, node), or calls to library functions that execute such a call
     on every normal path (a private helper is treated as if its body were inlined)."""
@@ -1257,12 +1292,19 @@ def rule_unblocking(fb, R):
     ps = _dedupe(fb.fns(QW + '::pop'))
     for f in fb.fns(QW + '::pop'):
         shut = {elem_of(f, c['id']) for c in _calls(f, q=QUEUE + '::shutdown') if c.get('recv') is not None and fn_field(f, c['recv'])}
-        conds = [b for b in f.blocks.values() if 'cond' in b and len(b['succs']) == 2 and
-                 (f.sn(b['cond']) or {}).get('q') == NS + 'at_end_of_data' and b['succs'][0] is not None]
+        # branches whose condition is at_end_of_data(...), possibly negated or held in a named single-assignment bool
+        conds = []
+        for b in f.blocks.values():
+            if 'cond' in b and len(b['succs']) == 2:
+                cn, pos = _resolve_bool(f, b['cond'])
+                if cn is not None and cn.get('k') == 'call' and cn.get('q') == NS + 'at_end_of_data':
+                    edge = b['succs'][0 if pos else 1]
+                    if edge is not None:
+                        conds.append(edge)
         ok = bool(conds)
         w = None
-        for b in conds:
-            w = must_pass(f, b['succs'][0], shut)
+        for edge in conds:
+            w = must_pass(f, edge, shut)
             ok = ok and w is None
         waits = _calls(f, q=QUEUE + '::wait_and_pop')
         sameq = all(f.root_var(c['recv']) == f.root_var(w2['recv']) for c in _calls(f, q=QUEUE + '::shutdown') for w2 in waits)
